@@ -21,3 +21,17 @@ CHECK["explanation"] = ("PID.doReceive, runTurn, finishOrReclaim, dispatchState.
                         "(fair, segmented, non-blocking bounded, bounded priority, priority intake) are covered by the mailbox scenario of C04 (2 producers, "
                         "1 consumer): every accepted message is dequeued exactly once. Stash: C13.")
 CHECK["bounds"] = {"dispatch": "senders 2+1 messages / 2 messages, 2 workers (1-2 turns), 3 rounds, throughput 2 and 1, context pool 2", "mailboxes": _m.CHECK["bounds"]}
+# stash/unstash part of the quantifier: messages held by the reentrancy stash while a blocking request is outstanding are handed
+# to the handler exactly once afterwards (the turn-level scenario of C16; dispatchOne is stopped in this check, so the scenario
+# runs with C16's routing mirror vC16_dispatchOne: stash gate -> real stash / handleAsyncResponse / handleReceived)
+_spec16 = importlib.util.spec_from_file_location("c16", os.path.join(os.path.dirname(os.path.abspath(__file__)), "c16.py"))
+_c16 = importlib.util.module_from_spec(_spec16)
+_spec16.loader.exec_module(_c16)
+_e16 = dict([x for x in _c16.CHECK["entries"] if x["fn"].endswith(".vC16_mixedModes")][0])
+_e16["opts"] = dict(_e16["opts"], unwind_mode="assert", feasibility=True,
+                    substitute=dict(_c16.TURN_SUB, **{"(*" + P + "PID).dispatchOne": P + "vC16_dispatchOne"}))
+CHECK["entries"] = CHECK["entries"] + [_e16]
+CHECK["harness"] = CHECK["harness"] + ["actor/zz_verif_c16.go"]
+CHECK["explanation"] += (" Reentrancy stash: C16's vC16_mixedModes (real doReceive/runTurn/enableReentrancyStash/stash/unstashAll/handleAsyncResponse/"
+                         "completeRequest/deregisterRequestState on one actor with two overlapping requests of every mode combination and every arrival "
+                         "order of two user messages and the two outcomes): every accepted message is handled exactly once once no blocking request is outstanding.")
